@@ -161,7 +161,10 @@ func (r *Router) NewIQResultRoute(ctx context.Context, id string) chan stanza.IQ
 	go func() {
 		<-route.context.Done()
 		r.IQResultRouteLock.Lock()
-		delete(r.IQResultRoutes, id)
+		// Only remove our own entry: the id may have been registered again by a newer request
+		if r.IQResultRoutes[id] == route {
+			delete(r.IQResultRoutes, id)
+		}
 		r.IQResultRouteLock.Unlock()
 	}()
 
